@@ -26,6 +26,7 @@ def plan(tier, seed):
   # (constructing a 4096-bit modulus of this family costs about a minute)
   for i in range(4 if q else 10):
     specs.append({'shard': 'hilo-%d' % i, 'n': 30 if q else 45,
+                  'timeout': 1500 if q else 3600,
                   'sizes': [256, 512, 1024] + ([] if q else [
                       1024, 2048, 2048, 4096])})
   for i, L in enumerate([384, 512, 768, 1024] + ([] if q else [1536, 2048])):
@@ -34,7 +35,8 @@ def plan(tier, seed):
   for i, ps in enumerate([512, 1024] + ([] if q else [1536, 2048, 4096])):
     for part in range(2):
       specs.append({'shard': 'unseeded-%d-%d' % (ps, part), 'psize': ps,
-                    'part': part, 'per': 40 if q else 80, 'weight': 3})
+                    'part': part, 'per': 40 if q else 80, 'weight': 3,
+                    'timeout': 1500 if q else 3600})
   return specs
 
 
@@ -103,7 +105,7 @@ def run_hilo(ctx, spec):
   rng = ctx.rng('hilo')
   chk_f, chk_h = rs.CheckFermat(), rs.CheckHighAndLowBitsEqual()
   for i in range(spec['n']):
-    if ctx.spent():
+    if ctx.spent(0.5):
       break
     nbits = rng.choice(spec['sizes'])
     tot = -(-nbits // 4) + 2 + rng.choice([0, 0, 1, 5, nbits // 16])
@@ -172,6 +174,8 @@ def run_unseeded(ctx, spec):
   if len(pick) > spec['per']:
     pick = rng.sample(pick, spec['per'])
   for v in pick:
+    if ctx.spent(0.6):
+      break
     for variant in (0, 1, 2):
       if not ctx.want('%x/%d' % (v & 0xffffffff, variant)):
         continue
